@@ -33,6 +33,11 @@ pub trait Engine {
     fn cases(&self, unit: &UnitSpec) -> Box<dyn Iterator<Item = Case> + '_>;
     fn run(&self, case: &Case) -> Outcome;
     fn rule(&self) -> String;
+    /// Turns a seeded case into a fully explicit one (e.g. the realised schedule replaces the
+    /// scheduler seed) before it is stored in a replay file.
+    fn explicit(&self, case: &Case) -> Case {
+        case.clone()
+    }
     fn components(&self) -> (Vec<&'static str>, Vec<&'static str>) {
         (vec![], vec![])
     }
